@@ -121,6 +121,7 @@ def run(chk):
         solver_whole.malformed_structures(chk, repo, 'R06.8')
         solver_whole.entry_point_arguments(chk, repo, 'R06.9')
         solver_whole.entry_point_layer_counts(chk, repo, 'R06.12')
+        solver_whole.entry_point_tuple_lengths(chk, repo, 'R06.12')
     except AnalysisError as ex:
         known = {norm_key(e_['key']) for e_ in load_known() if e_.get('property') == 'C06' and e_.get('status') == 'known'}
         if any((not o.ok) and o.key not in known for o in chk.obls):
